@@ -44,7 +44,7 @@ def retReplace : String := "view.FileInfo;replaceRecords;err"
 
 /-- `Delete`, reviewed -/
 def fxDelete : List String :=
-  ["if{", "with_clause", "if(err){", "return", "}", "}", "if{", "if{", "return", "}", "}", "lock", "if(err){", "return", "}", "defer:unlock", "load(forUpdate=true,ids=true)", "if(err){", "return", "}", "if{", "where", "if(err){", "return", "}", "}", "loop(query.Tables){", "resolve_name", "if(err){", "return", "}", "if{", "return", "}", "resolve_name", "if(err){", "return", "}", "if{", "return", "}", "if{", "get_copy", "}", "else{", "get_copy", "if(err){", "return", "}", "}", "header_update(viewsToDelete[viewKey])", "if(err){", "return", "}", "}", "loop(view.RecordSet){", "if(ctx){", "return", "}", "loop(viewsToDelete){", "internal_id", "if(err){", "}", "if{", "}", "}", "}", "if(ctx){", "return", "}", "loop(viewsToDelete){", "loop(v.RecordSet){", "if{", "}", "}", "set_records(v)", "restore_header(v)", "if(err){", "return", "}", "if(inMemory){", "publish_temp(v)", "}", "else{", "if(isFile){", "publish_file(v)", "}", "}", "}", "return"]
+  ["if{", "with_clause", "if(err){", "return", "}", "}", "if{", "if{", "return", "}", "}", "lock", "if(err){", "return", "}", "defer:unlock", "load(forUpdate=true,ids=true)", "if(err){", "return", "}", "if{", "where", "if(err){", "return", "}", "}", "loop(query.Tables){", "if{", "return", "}", "resolve_name", "if(err){", "return", "}", "if{", "return", "}", "resolve_name", "if(err){", "return", "}", "if{", "return", "}", "if{", "get_copy", "}", "else{", "get_copy", "if(err){", "return", "}", "}", "header_update(viewsToDelete[viewKey])", "if(err){", "return", "}", "}", "loop(view.RecordSet){", "if(ctx){", "return", "}", "loop(viewsToDelete){", "internal_id", "if(err){", "}", "if{", "}", "}", "}", "if(ctx){", "return", "}", "loop(viewsToDelete){", "loop(v.RecordSet){", "if{", "}", "}", "set_records(v)", "restore_header(v)", "if(err){", "return", "}", "if(inMemory){", "publish_temp(v)", "}", "else{", "if(isFile){", "publish_file(v)", "}", "}", "}", "return"]
 
 /-- what `Delete` returns on success -/
 def retDelete : String := "fileInfos;deletedCounts;nil"
